@@ -128,6 +128,24 @@ def run_case(case):
                 "{!r} @{}: applying {} changed its arguments from {} to {}".format(text, ts_s, name, [(fmt(b[0]) if b[0][0] != "R" else b[0], b[1], b[2]) for b in before], [(fmt(a[0]) if a[0][0] != "R" else a[0], a[1], a[2]) for a in after]),
             )
         )
+    # latent-time anchoring is post-processing of finished candidates: the anchored stream is the un-anchored stream with every candidate
+    # anchored on its own (on a copy) - it must not reach back into the running search
+    import copy
+
+    from ctparse.time.postprocess_latent import apply_postprocessing_rules
+
+    gen = lib()[1]
+    for sname, mk in _scorers(tier, seed)[:2]:
+        off = []
+        for c in gen(text, ts=ts, timeout=0, max_stack_depth=0, scorer=mk(), latent_time=False):
+            if c is not None:
+                r2 = apply_postprocessing_rules(ts, copy.deepcopy(c.resolution))
+                off.append((obs(r2), r2.mstart, r2.mend, tuple(c.production)))
+        on = [(obs(c.resolution), c.resolution.mstart, c.resolution.mend, tuple(c.production)) for c in gen(text, ts=ts, timeout=0, max_stack_depth=0, scorer=mk(), latent_time=True) if c is not None]
+        if on != off:
+            k = next((i for i in range(min(len(on), len(off))) if on[i] != off[i]), min(len(on), len(off)))
+            v.append(viol({"kind": "anchoring_changes_search", "scorer": sname.rstrip("0123456789")}, "{!r} @{} scorer={}: with latent_time=True candidate {} is {} but the un-anchored stream anchored candidate by candidate gives {} ({} vs {} candidates)".format(text, ts_s, sname, k, on[k] if k < len(on) else None, off[k] if k < len(off) else None, len(on), len(off))))
+            break
     term = g.terminal_values()
     traces = 0
     for sname, mk in _scorers(tier, seed):
